@@ -261,19 +261,18 @@ impl ZipOffsetBlobStoreBuilder {
         self.offset_builder.push(self.current_offset)?;
         
         // Build compressed offset index
-        let _offsets = self.offset_builder.finish()?;
+        let offsets = self.offset_builder.finish()?;
         
         // Create the blob store
-        let store = if let Some(pool) = self.pool {
+        let mut store = if let Some(pool) = self.pool {
             ZipOffsetBlobStore::with_pool(self.config, pool)?
         } else {
             ZipOffsetBlobStore::with_config(self.config)?
         };
 
-        // Create the final store with the built data
-        // Note: This is a placeholder implementation
-        // TODO: Implement actual data transfer from builder to store
-        
+        // Hand the built content and offset index over to the store
+        store.set_built_data(self.content, offsets, self.stats.uncompressed_size);
+
         Ok(store)
     }
 
